@@ -165,7 +165,7 @@ Section Fixed.
       + constructor.
         * apply IH; auto.
         * rewrite Forall_forall in *. intros z Hz.
-          apply (Permutation_in _ (insert_by_perm x l)) in Hz. destruct Hz as [<-|Hz]; auto. unfold R; lia.
+          apply (Permutation_in _ (insert_by_perm x l)) in Hz. destruct Hz as [<-|Hz]; auto.
   Qed.
 
   Lemma sort_by_sorted : forall l, NoDup l -> StronglySorted R (sort_by ord l).
